@@ -42,7 +42,7 @@ impl Prop for C02 {
     }
     fn budget(&self, tier: Tier) -> Budget {
         match tier {
-            Tier::Quick => Budget { cases: 640, max_tape: 640 },
+            Tier::Quick => Budget { cases: 800, max_tape: 640 },
             Tier::Thorough => Budget { cases: 16_000, max_tape: 1024 },
         }
     }
@@ -66,6 +66,11 @@ impl Prop for C02 {
         let reach = reachability(&sim).map_err(|m| Failure::new("harness/c02-reach", m))?;
         let min_bad = reach.min_any_bad();
         let has_arrays = case.sys.states.iter().any(|s| s.symbol.get_type(&case.ctx).is_array());
+        // a bad state in the initial state is what the generator yields most often: keep one in three
+        if min_bad == Some(0) && seed % 3 != 0 {
+            rec.exclude("bad in the initial state (2 of 3 sub-sampled away)");
+            return Ok(());
+        }
         for run in 0..3usize {
             let b = |i: usize| cfg_bytes[run * 3 + i];
             let profile_idx = (b(0) % 4) as usize;
@@ -172,6 +177,14 @@ impl Prop for C02 {
                 }
             }
             rec.label(if expected_fail { "verdict:fail" } else { "verdict:success" });
+            rec.label(&match min_bad {
+                None => format!("bad:unreachable/k{}", if k > reach.diameter as u64 { ">diameter" } else { "<=diameter" }),
+                Some(d) => format!(
+                    "bad-depth:{}/k{}",
+                    if d >= 4 { "4+".to_string() } else { d.to_string() },
+                    if k < d as u64 { "<depth" } else if k == d as u64 { "=depth" } else { ">depth" }
+                ),
+            });
         }
         Ok(())
     }
